@@ -20,6 +20,7 @@ ASSUMPTIONS = ["E2 small-curve retargeting (see C03)", "vf/ref/bip340_ref.py tra
                "against the 19 official vectors in the selftest", "no length strictness is demanded of the secret key argument"]
 OBLIGATIONS = {
     "history_sequences": "operation sequences (non-initial process states) explored",
+    "concurrent_first_calls": "interleavings of two concurrent first BIP340 calls explored",
     "e_zero": "a triple with challenge e = 0 (mod n) was signed or verified",
     "k_zero": "a signing case with k' = 0 occurred (the algorithm must fail)",
     "odd_y_pubkey": "a secret key whose public point has odd y was signed with",
@@ -125,7 +126,42 @@ def chk_pubkey(case):
 CASES = {"sign": chk_sign, "verify": chk_verify, "pubkey": chk_pubkey}
 
 
+def _concur_setup(case):
+    """two threads whose first library calls are concurrent BIP340 operations"""
+    import bits.bips.bip340 as b340
+    C = _curve(case)
+    calls, expect = [], []
+    for op in case["calls"]:
+        if op[0] == "sign":
+            sk, msg, aux = (bytes.fromhex(x) for x in op[1:4])
+            calls.append(lambda sk=sk, msg=msg, aux=aux: b340.sign(sk, msg, aux))
+            expect.append(("sign", B.sign(C, sk, msg, aux)))
+        else:
+            pk, msg, sig = (bytes.fromhex(x) for x in op[1:4])
+            calls.append(lambda pk=pk, msg=msg, sig=sig: bool(b340.verify(pk, msg, sig)))
+            expect.append(("verify", B.verify(C, pk, msg, sig)))
+
+    def judge(results, errors):
+        out = []
+        for i, (kind_, exp) in enumerate(expect):
+            if i in errors:
+                if kind_ == "verify" and not exp:
+                    continue
+                if kind_ == "sign" and exp is None:
+                    continue
+                out.append((f"C12/concurrent/{kind_}-raised", f"thread {i}: {errors[i]} (specification: {exp.hex() if isinstance(exp, bytes) else exp})"))
+            elif results[i] != exp:
+                out.append((f"C12/concurrent/{kind_}-wrong", f"thread {i}: got {results[i].hex() if isinstance(results[i], bytes) else results[i]}, "
+                            f"specification {exp.hex() if isinstance(exp, bytes) else exp}"))
+        return out
+    return calls, judge
+
+
 def run_case(kind, case):
+    if kind == "concur":
+        from vf import concur
+        calls, judge = _concur_setup(case)
+        return concur.replay_calls(calls, ("bits/bips/bip340.py", "bits/ecmath.py"), case["choices"], judge)
     if kind == "seq":
         from vf import seqexplore
         return seqexplore.replay(run_case, case)
@@ -195,6 +231,8 @@ def jobs(tier, seed):
             js.append({"name": f"secp/flips/{b}/{sh}", "part": "flips", "base": b, "shard": [sh, 16], "weight": 10})
     from vf.runner import seq_jobs
     js += seq_jobs(4, curve=list(T[0]), weight=4)
+    for i in range(3):
+        js.append({"name": f"concurrent/{i}", "part": "concur", "curve": list(T[0]), "idx": i, "weight": 8})
     return js
 
 
@@ -204,6 +242,23 @@ def run_job(job):
         return run_seq_job(job, seq_ops(job), run_case)
     acc = Acc(job)
     part, seed, cv = job["part"], job["seed"], job.get("curve")
+    if part == "concur":
+        from vf import concur
+        C = smallcurve.curve(cv)
+        odd = next(d for d in range(2, C.n) if C.mul(d, C.G)[1] % 2)
+        even = next(d for d in range(2, C.n) if C.mul(d, C.G)[1] % 2 == 0)
+        sk = lambda d: d.to_bytes(32, "big").hex()
+        sig_e = next(s_ for s_ in (B.sign(C, even.to_bytes(32, "big"), b"c", bytes([a]) * 32) for a in range(64)) if s_)
+        pk_e = B.pubkey_gen(C, even.to_bytes(32, "big"))
+        scen = [[["sign", sk(odd), b"a".hex(), "00" * 32], ["sign", sk(even), b"b".hex(), "ff" * 32]],
+                [["sign", sk(odd), b"a".hex(), "01" * 32], ["verify", pk_e.hex(), b"c".hex(), sig_e.hex()]],
+                [["verify", pk_e.hex(), b"c".hex(), sig_e.hex()], ["verify", pk_e.hex(), b"d".hex(), sig_e.hex()]]][job["idx"]]
+        case = {"curve": cv, "calls": scen}
+        calls, judge = _concur_setup(case)
+        ex = concur.explore_calls(acc, calls, ("bits/bips/bip340.py", "bits/ecmath.py"), 1 if job["tier"] == "quick" else 2, judge, "concur", case)
+        acc.ob("concurrent_first_calls", ex.executions)
+        acc.sample({"concurrent_calls": [c[0] for c in scen], "executions": ex.executions})
+        return acc.result()
     if part == "sign":
         C = smallcurve.curve(cv)
         msgs = [b"", b"\x00", b"m", b"\xff" * 32]
